@@ -141,6 +141,8 @@ func genCoefShared(t *rapid.T) *big.Int {
 	switch ir(t, 0, 16, "coefKind") {
 	case 9:
 		return genWordStructured(t)
+	case 10:
+		return genPow2Lead(t)
 	case 0:
 		return new(big.Int).Sub(ref.Cmax, bi(int64(ir(t, 0, 3, "cmaxOff"))))
 	case 1:
@@ -213,6 +215,44 @@ func genWordStructured(t *rapid.T) *big.Int {
 	c.Lsh(c, 64)
 	c.Or(c, new(big.Int).SetUint64(lo))
 	return capCoef(c)
+}
+
+// genPow2Lead draws a coefficient made of the leading digits of a power of two (or its half, double or third),
+// give or take a few units: the multi-word accumulators of the package hold decimal significands scaled by
+// powers of ten, and their headroom tests ("may I multiply by ten / a hundred once more?") change outcome where
+// significand * 10^j crosses 2^64, 2^128, 2^192 or 2^256 — i.e. for decimal mantissas 1.8446744…, 3.4028236…,
+// 6.2771017…, 1.1579208… and, where the code doubles or halves first, their halves and doubles. A guard that is
+// off by a sliver there (0x1999… for 0x18ff…) fails only for mantissas within ~1e-19 of such a boundary.
+func genPow2Lead(t *rapid.T) *big.Int {
+	k := []uint{63, 64, 65, 96, 113, 114, 127, 128, 129, 160, 191, 192, 193, 224, 255, 256, 257, 320, 384}[ir(t, 0, 18, "pow2k")]
+	v := new(big.Int).Lsh(ref.One, k)
+	switch ir(t, 0, 5, "pow2mul") {
+	case 0:
+		v.Mul(v, big.NewInt(3))
+	case 1:
+		v.Quo(new(big.Int).Mul(v, ref.Pow10(40)), big.NewInt(3)) // a third, digits kept by scaling first
+	}
+	n := 35
+	switch ir(t, 0, 3, "pow2len") {
+	case 0:
+		n = 34
+	case 1:
+		n = ir(t, 19, 35, "len")
+	}
+	d := ref.DecLen(v)
+	if d > n {
+		v.Quo(v, ref.Pow10(d-n))
+	} else if d < n {
+		v.Mul(v, ref.Pow10(n-d))
+	}
+	v.Add(v, bi(int64(ir(t, -2, 3, "pow2off"))))
+	if v.Cmp(ref.Cmax) > 0 {
+		v.Quo(v, ref.Ten)
+	}
+	if v.Sign() <= 0 {
+		v.SetInt64(1)
+	}
+	return v
 }
 
 // genExp draws an exponent in [Emin, Emax].
